@@ -14,7 +14,9 @@ else
   git -C /repo checkout -- . 2>/dev/null; git -C /repo reset -q --hard HEAD
   echo "PATCH-DOES-NOT-APPLY $patch"; exit 3
 fi
-trap 'git -C /repo checkout -- . ; git -C /repo clean -fdq -e target -e Cargo.lock >/dev/null 2>&1' EXIT
+# revert and rebuild the simulator against the clean tree (a stale binary built against the change must
+# never be run by hand afterwards)
+trap 'git -C /repo checkout -- . ; git -C /repo clean -fdq -e target -e Cargo.lock >/dev/null 2>&1; ./check build >/dev/null 2>&1' EXIT
 for id in "$@"; do
   out=$(./check "$id" "${TIER:-quick}" ${EXTRA:-} 2>&1); code=$?
   v=$(echo "$out" | grep -m1 '^VIOLATION' || true)
